@@ -1,7 +1,7 @@
 --------------------------------- MODULE DenominationD ---------------------------------
 (* C16: the rule of Denomination.tla restated over DecNat (little-endian decimal digit sequences), *)
 (* for amounts at the normative scale (MAX_MONEY = 2.1e15 zatoshi does not fit a TLC integer).    *)
-(* MC_TraceEquiv.tla checks that CanonSplitD / ReconcileD agree with CanonSplit and the reconcile  *)
+(* MC_DenominationEquiv.tla checks that CanonSplitD / ReconcileD agree with CanonSplit and the reconcile  *)
 (* machine of Denomination.tla on every small input.  `XAllowed(r)` judge one trace line each.     *)
 EXTENDS Integers, Sequences, TLC, DecNat
 
